@@ -1,7 +1,7 @@
 #!/venv/bin/python
 """Copy the sub-agents' seeded changes into /verif/seeded/<id>/ (patch.diff, demo.py, notes.md) and create meta.json skeletons."""
 import os, shutil, json, subprocess, sys
-for i in range(1, 21):
+for i in ([] if os.environ.get("ROUND2_ONLY") else range(1, 21)):
     pid = 'C%02d' % i
     for v in ('a', 'b'):
         src = '/tmp/seed_%s/seeded_out/%s' % (pid, v)
@@ -18,3 +18,19 @@ for i in range(1, 21):
             print('NOTE demo mentions scratch path:', dst)
         rc = subprocess.run(['git', '-C', '/repo', 'apply', '--check', os.path.join(dst, 'patch.diff')], capture_output=True, text=True)
         print(dst, 'applies' if rc.returncode == 0 else 'DOES NOT APPLY: ' + rc.stderr.strip()[:100])
+
+# ---- round 2 (fresh sub-agents, same brief): only changes that are not duplicates of round 1 are kept
+ROUND2 = {'C02_c': ('C02', 'a'), 'C02_d': ('C02', 'b'), 'C03_c': ('C03', 'b'), 'C05_c': ('C05', 'a'), 'C06_c': ('C06', 'b'), 'C08_c': ('C08', 'a'),
+          'C10_c': ('C10', 'a'), 'C10_d': ('C10', 'b')}
+ROUND2.update(json.load(open('/verif/tools/round2_extra.json')) if os.path.exists('/verif/tools/round2_extra.json') else {})
+for sid, (pid, v) in ROUND2.items():
+    src = '/tmp/seed2_%s/seeded_out/%s' % (pid, v)
+    if not os.path.exists(src + '/patch.diff'):
+        print('missing', src); continue
+    dst = '/verif/seeded/%s' % sid
+    os.makedirs(dst, exist_ok=True)
+    for f in ('patch.diff', 'demo.py', 'notes.md'):
+        if os.path.exists(os.path.join(src, f)):
+            shutil.copy(os.path.join(src, f), os.path.join(dst, f))
+    rc = subprocess.run(['git', '-C', '/repo', 'apply', '--check', os.path.join(dst, 'patch.diff')], capture_output=True, text=True)
+    print(dst, 'applies' if rc.returncode == 0 else 'DOES NOT APPLY: ' + rc.stderr.strip()[:100])
